@@ -120,6 +120,7 @@ type Run struct {
 	stubState map[string]interface{}
 
 	killed    bool
+	schedN    int
 	local     *localCtx
 	lastFn    string
 	threadErr interface{}
